@@ -6,6 +6,6 @@ P=$1; ID=$2; TIER=${3:-quick}
 cd /repo && git apply "$P" || { echo "patch does not apply"; exit 3; }
 cd /verif && ./check $ID $TIER > /verif/work/sens_$ID.log 2>&1
 rc=$?
-cd /repo && git checkout -- . 
+cd /repo && git checkout -- . ; git -C /verif checkout -- evidence
 echo "patch=$(basename $P) check=$ID exit=$rc $(grep -m1 'signature:' /verif/work/sens_$ID.log)"
 exit 0
